@@ -772,7 +772,7 @@ def main():
                        "get_users_for_role may also list names looked up before that match a user pattern holding the role"]
     chk.trusted = ["hand-written models coq/theories/{Policy,RoleGraph,Mgmt}.v tied by the differential history correspondence",
                    "the four graph-walking queries run under a 2 s CPU-time timer (subclass of casbin.Enforcer calling the real methods)"]
-    chk.build(oracle_name="Mgmt")
+    chk.build(translators=["rbacapi"], oracle_name="Mgmt")
     if chk.replay_file:
         import json
         c = (json.load(open(chk.replay_file)).get("case") or {})
